@@ -3,6 +3,7 @@ mod wire;
 mod dag;
 mod refeval;
 mod c01;
+mod c04;
 
 fn main() {
     // silence panic messages from catch_unwind'ed implementation panics
@@ -12,10 +13,11 @@ fn main() {
     let seed: u64 = args.get(2).and_then(|s| s.parse().ok()).unwrap_or(1);
     let count: usize = args.get(3).and_then(|s| s.parse().ok()).unwrap_or(100);
     let outdir = args.get(4).cloned().unwrap_or_else(|| ".".into());
-    let budgets: Vec<usize> = args.get(5).map(|s| s.split(',').map(|x| x.parse().unwrap()).collect())
+    let budgets: Vec<usize> = args.get(5).and_then(|s| s.split(',').map(|x| x.parse().ok()).collect())
         .unwrap_or_else(|| vec![1, 2, 3, 4, 6, 255]);
     let rc = match cmd {
         "c01" => c01::run(seed, count, &outdir, &budgets).unwrap(),
+        "c04" => c04::run(seed, count, &outdir, args.get(5).map(|s| s == "jit").unwrap_or(false)).unwrap(),
         _ => { eprintln!("usage: fv <cmd> <seed> <count> <outdir> [budgets]"); 2 }
     };
     std::process::exit(rc);
